@@ -48,6 +48,7 @@ import (
 	csnappy "github.com/segmentio/kafka-go/compress/snappy"
 	vxerial "github.com/segmentio/kafka-go/compress/snappy/go-xerial-snappy"
 	czstd "github.com/segmentio/kafka-go/compress/zstd"
+	"github.com/segmentio/kafka-go/protocol"
 	"kverif/kvfmt"
 )
 
@@ -1216,16 +1217,12 @@ func init() {
 
 // writeMixed offers the payload through a mix of Write and io.Copy (ReadFrom where the
 // writer has it) from scripted sources, incl. ones that return (n > 0, io.EOF)
-//
-// copyOnlyFirst: known finding C16-lz4-readfrom-after-write (pierrec/lz4 v4.1.15
-// Writer.ReadFrom has no case for a writer that was already written to; the quirk case
-// replays it) — for lz4 io.Copy is used only as the first operation on the writer.
-func writeMixed(r *rand.Rand, w io.Writer, payload []byte, split []int, copyOnlyFirst bool) error {
+func writeMixed(r *rand.Rand, w io.Writer, payload []byte, split []int) error {
 	pos := 0
-	for i, n := range split {
+	for _, n := range split {
 		piece := payload[pos : pos+n]
 		pos += n
-		if r.Intn(3) == 0 && !(copyOnlyFirst && i > 0) {
+		if r.Intn(3) == 0 {
 			sr, _, _ := genScript(r, piece, false)
 			k, err := io.Copy(w, sr)
 			if err != nil {
@@ -1243,17 +1240,8 @@ func writeMixed(r *rand.Rand, w io.Writer, payload []byte, split []int, copyOnly
 
 // readMixed reads everything: Reads with the given sizes, or a few Reads and then io.Copy
 // (WriteTo where the reader has it), or io.Copy alone
-//
-// noReadThenCopy: known findings C16-gzip-writeto-after-read (klauspost gzip.Reader.WriteTo
-// after a Read reports "invalid checksum" on a correct stream) and C16-lz4-writeto-after-read
-// (pierrec/lz4 v4.1.15 Reader.WriteTo has no case for a reader already read from); the
-// quirk cases replay them.
-func readMixed(r *rand.Rand, rd io.Reader, sizes []int, noReadThenCopy bool) ([]byte, error) {
-	k := r.Intn(3)
-	if noReadThenCopy && k == 2 {
-		k = r.Intn(2)
-	}
-	switch k {
+func readMixed(r *rand.Rand, rd io.Reader, sizes []int) ([]byte, error) {
+	switch r.Intn(3) {
 	case 0:
 		return readSizes(rd, sizes)
 	case 1:
@@ -1332,7 +1320,7 @@ func roundTrip(r *rand.Rand, rc refCodec, codec compress.Codec, payload []byte, 
 	}()
 	var b bytes.Buffer
 	w := codec.NewWriter(&b)
-	if err := writeMixed(r, w, payload, split, rc.name == "lz4"); err != nil {
+	if err := writeMixed(r, w, payload, split); err != nil {
 		w.Close()
 		return "write:" + err.Error()
 	}
@@ -1351,7 +1339,7 @@ func roundTrip(r *rand.Rand, rc refCodec, codec compress.Codec, payload []byte, 
 		return "reference-decoder-differs"
 	}
 	rd := codec.NewReader(bytes.NewReader(comp))
-	d, err = readMixed(r, rd, sizes, rc.name == "gzip" || rc.name == "lz4")
+	d, err = readMixed(r, rd, sizes)
 	rd.Close()
 	rd.Close()
 	if err != nil {
@@ -1365,7 +1353,7 @@ func roundTrip(r *rand.Rand, rc refCodec, codec compress.Codec, payload []byte, 
 		return "reference-encoder:" + err.Error()
 	}
 	rd = codec.NewReader(&chopReader{data: comp2, sizes: []int{1 + r.Intn(5000)}})
-	d, err = readMixed(r, rd, sizes, rc.name == "gzip" || rc.name == "lz4")
+	d, err = readMixed(r, rd, sizes)
 	rd.Close()
 	if err != nil {
 		return "read-of-reference-stream:" + err.Error()
@@ -1518,7 +1506,7 @@ func roundTripLight(r *rand.Rand, rc refCodec, codec compress.Codec, payload []b
 	}()
 	var b bytes.Buffer
 	w := codec.NewWriter(&b)
-	if err := writeMixed(r, w, payload, []int{len(payload)}, rc.name == "lz4"); err != nil {
+	if err := writeMixed(r, w, payload, []int{len(payload)}); err != nil {
 		w.Close()
 		return "write:" + err.Error()
 	}
@@ -1533,7 +1521,7 @@ func roundTripLight(r *rand.Rand, rc refCodec, codec compress.Codec, payload []b
 		return "reference-decoder-differs"
 	}
 	rd := codec.NewReader(bytes.NewReader(b.Bytes()))
-	d, err = readMixed(r, rd, []int{len(payload) + 16}, rc.name == "gzip" || rc.name == "lz4")
+	d, err = readMixed(r, rd, []int{len(payload) + 16})
 	rd.Close()
 	if err != nil {
 		return "read:" + err.Error()
@@ -1780,9 +1768,9 @@ func genPool(r *rand.Rand, pk poolKind) {
 	emit("pool", pk.name+" "+strings.Join(acts, " "), strings.Join(obs, ","), keys(feats))
 }
 
-// ----------------------------------------------------------------------------- the two known mixes, replayed once per run
+// ----------------------------------------------------------------------------- regression cases for F32-F34 (fixed in /repo: dbad737, 4241137): these mixes must succeed
 
-func genQuirks() {
+func genMixRegressions() {
 	payload := bytes.Repeat([]byte("hello kafka "), 3000)
 	{ // lz4: Write, then io.Copy (ReadFrom promoted from *lz4.Writer)
 		var b bytes.Buffer
@@ -1801,7 +1789,7 @@ func genQuirks() {
 				why = "reference-decoder-differs"
 			}
 		}
-		emit("quirk", "lz4-readfrom-after-write", okOr(why), []string{"codec=lz4", "Write-then-ReadFrom"})
+		emit("mix", "lz4-readfrom-after-write", okOr(why), []string{"codec=lz4", "Write-then-ReadFrom"})
 	}
 	{ // lz4: Read, then io.Copy (WriteTo promoted from *lz4.Reader)
 		var lb bytes.Buffer
@@ -1822,7 +1810,7 @@ func genQuirks() {
 			why = "read-back-differs"
 		}
 		rd.Close()
-		emit("quirk", "lz4-writeto-after-read", okOr(why), []string{"codec=lz4", "Read-then-WriteTo"})
+		emit("mix", "lz4-writeto-after-read", okOr(why), []string{"codec=lz4", "Read-then-WriteTo"})
 	}
 	{ // gzip: Read, then io.Copy (WriteTo promoted from *gzip.Reader)
 		var gb bytes.Buffer
@@ -1843,7 +1831,84 @@ func genQuirks() {
 			why = "read-back-differs"
 		}
 		rd.Close()
-		emit("quirk", "gzip-writeto-after-read", okOr(why), []string{"codec=gzip", "Read-then-WriteTo"})
+		emit("mix", "gzip-writeto-after-read", okOr(why), []string{"codec=gzip", "Read-then-WriteTo"})
+	}
+}
+
+// ----------------------------------------------------------------------------- protocol-level witness of F32
+
+// plainBytes is a protocol.Bytes WITHOUT a WriteTo method: io.Copy(encoder, b) then goes
+// through encoder.ReadFrom and io.Copy(compressor, r), i.e. the compressor's ReadFrom after
+// earlier Writes on the same stream.
+type plainBytes struct{ r *bytes.Reader }
+
+func (p plainBytes) Read(b []byte) (int, error) { return p.r.Read(b) }
+func (p plainBytes) Close() error               { return nil }
+func (p plainBytes) Len() int                   { return p.r.Len() }
+
+func genProto(r *rand.Rand) {
+	attrs := []struct {
+		name string
+		a    protocol.Attributes
+	}{{"gzip", protocol.Gzip}, {"snappy", protocol.Snappy}, {"lz4", protocol.Lz4}, {"zstd", protocol.Zstd}}
+	for _, at := range attrs {
+		for _, ver := range []int8{1, 2} {
+			for _, plain := range []bool{true, false} {
+				mk := func(b []byte) protocol.Bytes {
+					if plain {
+						return plainBytes{bytes.NewReader(b)}
+					}
+					return protocol.NewBytes(b)
+				}
+				n := 1 + r.Intn(5)
+				var keys, vals [][]byte
+				var recs []protocol.Record
+				for i := 0; i < n; i++ {
+					k := []byte(fmt.Sprintf("key-%d-%d", i, r.Intn(1000)))
+					v, _ := genPayload(r, 5000)
+					keys, vals = append(keys, k), append(vals, v)
+					recs = append(recs, protocol.Record{Time: time.Unix(1700000000, 0), Key: mk(k), Value: mk(v)})
+				}
+				why := func() (why string) {
+					defer func() {
+						if p := recover(); p != nil {
+							why = fmt.Sprintf("panic:%v", p)
+						}
+					}()
+					rs := protocol.RecordSet{Version: ver, Attributes: at.a, Records: protocol.NewRecordReader(recs...)}
+					var b bytes.Buffer
+					if _, err := rs.WriteTo(&b); err != nil {
+						return "RecordSet.WriteTo:" + err.Error()
+					}
+					var back protocol.RecordSet
+					if _, err := back.ReadFrom(bytes.NewReader(b.Bytes())); err != nil {
+						return "RecordSet.ReadFrom:" + err.Error()
+					}
+					for i := 0; i < n; i++ {
+						rec, err := back.Records.ReadRecord()
+						if err != nil {
+							return fmt.Sprintf("record-%d:%v", i, err)
+						}
+						k, _ := protocol.ReadAll(rec.Key)
+						v, _ := protocol.ReadAll(rec.Value)
+						if !bytes.Equal(k, keys[i]) || !bytes.Equal(v, vals[i]) {
+							return fmt.Sprintf("record-%d-differs", i)
+						}
+					}
+					if _, err := back.Records.ReadRecord(); !errors.Is(err, io.EOF) {
+						return "more-records-than-written"
+					}
+					return ""
+				}()
+				f := []string{"codec=" + at.name, fmt.Sprintf("recordset-v%d", ver)}
+				if plain {
+					f = append(f, "Bytes-without-WriteTo")
+				} else {
+					f = append(f, "protocol.NewBytes")
+				}
+				emit("proto", fmt.Sprintf("%s v%d plain=%v n=%d", at.name, ver, plain, n), okOr(why), f)
+			}
+		}
 	}
 }
 
@@ -1936,7 +2001,8 @@ func main() {
 	}
 
 	// 2. all codecs through the public API
-	genQuirks()
+	genMixRegressions()
+	genProto(r)
 	for i := 0; i < *nrt; i++ {
 		genRT(r)
 	}
